@@ -37,6 +37,9 @@ def checkQueryLine (kvs : List (String × String)) (rhs : String) : String := Id
   let some n := (lookup kvs "n").bind parseNat? | return "FAIL PARSE n"
   let some order := (lookup kvs "order").bind parseNatList | return "FAIL PARSE order"
   let some qsS := lookup kvs "qs" | return "FAIL PARSE qs"
+  -- `kind=dnnf`: the diagrams come from top-down compilation and are conditioned through
+  -- `TopDownBuilder::condition`
+  let dnnf := lookup kvs "kind" == some "dnnf"
   if rhs.startsWith "panic:" then return s!"FAIL SPEC a query panicked: {rhs}"
   let okv := splitKV rhs
   let some ansS := lookup okv "ans" | return "FAIL PARSE ans"
@@ -101,7 +104,7 @@ def checkQueryLine (kvs : List (String × String)) (rhs : String) : String := Id
       | some [x, b] =>
         let some res := parseBdd a | return "FAIL PARSE condition result"
         if ttString n res.eval != ttString n (fCond d.eval x (b == 1)) then return s!"FAIL SPEC query #{i}: condition result denotes the wrong function"
-        mq := mq ++ [(r, .condition (fun u v => decide (lvl u < lvl v)) x (b == 1))]
+        mq := mq ++ [(r, if dnnf then .dnnfCondition x (b == 1) else .condition (fun u v => decide (lvl u < lvl v)) x (b == 1))]
         expectModel := expectModel ++ [some a]
       | _ => return "FAIL PARSE C"
     else if kind == "S" then
